@@ -1,2 +1,98 @@
 (* C12 — property theorems only: statement, `exact <lemma>`, Print Assumptions. *)
-From GL Require Import Stack.Registry Stack.RegSpec Stack.CallFrames.
+From GL Require Import Stack.Registry Stack.RegSpec Stack.CallFrames Stack.Client
+  Stack.CallFramesFacts Stack.RegistryFacts Stack.ClientFacts.
+
+(* Both call-frame stack implementations return, for every history of Push-when-not-full / Pop /
+   Last / At / SetSp-not-upwards / Sp / IsEmpty / IsFull, what the bounded list stack returns
+   (Idx = position), and end in a state that represents the list (Rf / Ra: the segment bookkeeping
+   invariant segIdx*8+segSp = length, live segments allocated, the ones above nil). *)
+Theorem fixed_refines_stack : forall size ops,
+  0 <= size -> ldom size [] ops = true ->
+  frun (newFixed size) ops = lrun size [] ops /\
+  Rf (ffinal (newFixed size) ops) (lfinal size [] ops).
+Proof. exact fixed_refines_stack_lemma. Qed.
+Print Assumptions fixed_refines_stack.
+
+(* any maxSize, any pool behaviour: d0 and the dirty segment carried by every Push are arbitrary *)
+Theorem auto_refines_stack : forall maxSize d0 ops,
+  1 <= maxSize -> len d0 = FramesPerSegment -> ldom (autoCap maxSize) [] ops = true ->
+  arun_ (newAuto maxSize d0) ops = lrun (autoCap maxSize) [] ops /\
+  Ra (afinal (newAuto maxSize d0) ops) (lfinal (autoCap maxSize) [] ops).
+Proof. exact auto_refines_stack_lemma. Qed.
+Print Assumptions auto_refines_stack.
+
+(* one step from any represented state (what the history theorem is an induction over) *)
+Theorem auto_step_refines : forall c s l o,
+  Ra s l -> FramesPerSegment * nseg s = c -> sop_dom c l o = true ->
+  snd (astep s o) = snd (lstep c l o) /\ Ra (fst (astep s o)) (fst (lstep c l o)) /\
+  nseg (fst (astep s o)) = nseg s.
+Proof. exact astep_sim. Qed.
+Print Assumptions auto_step_refines.
+
+(* The two defects of the pinned tree (DESIGN 9.1 C12-2, C12-1; repaired by 00581fb and 300d9b1),
+   on the transcription of the old code: SetSp(8) on a represented depth-8 stack gave depth 0;
+   IsFull was false on a full stack. *)
+Theorem old_setsp_refuted :
+  exists s, Ra s [1; 2; 3; 4; 5; 6; 7; 8] /\ aSp s = 8 /\ aSp (aSetSp_old s 8) = 0.
+Proof. exact old_setsp_refuted_lemma. Qed.
+Print Assumptions old_setsp_refuted.
+
+Theorem old_isfull_refuted :
+  exists s, Ra s [1; 2; 3; 4; 5; 6; 7; 8] /\ aSp s = autoCap 8 /\ aIsFull_old s = false /\ aIsFull s = true.
+Proof. exact old_isfull_refuted_lemma. Qed.
+Print Assumptions old_isfull_refuted.
+
+(* The growing registry is the unbounded list of live cells below lim = max(cap, maxSize):
+   every in-domain operation that needs at most lim cells succeeds and acts as the list operation
+   (resizing copies exactly the live prefix) ... *)
+Theorem registry_grow_transparent : forall r l lim o,
+  Rr r l lim -> rop_dom (len l) o = true -> rneed (len l) o <= lim ->
+  exists r', rstep r o = Ok (r', snd (lstepR l o)) /\
+             Rr r' (fst (lstepR l o)) (match o with RRaisePush => Z.max lim (len l + 1) | _ => lim end).
+Proof. exact registry_grow_transparent_lemma. Qed.
+Print Assumptions registry_grow_transparent.
+
+(* ... and one that needs more calls the overflow handler before anything is written: the
+   operation has no successor state, a history continues from the unchanged registry *)
+Theorem registry_overflow_error : forall r l lim o,
+  Rr r l lim -> rop_dom (len l) o = true -> lim < rneed (len l) o ->
+  rstep r o = Overflow.
+Proof. exact registry_overflow_error_lemma. Qed.
+Print Assumptions registry_overflow_error.
+
+Theorem registry_refines_list : forall ops r l lim,
+  Rr r l lim -> ldomR l lim ops = true -> rrun r ops = lrunR l lim ops.
+Proof. exact registry_refines_list_lemma. Qed.
+Print Assumptions registry_refines_list.
+
+(* raiseError can always push its message, whatever the registry's size and limits *)
+Theorem raise_has_room : forall r l lim v,
+  Rr r l lim -> exists r', raisePush r v = Ok r' /\ Rr r' (l ++ [v]) (Z.max lim (len l + 1)).
+Proof. exact raise_has_room_lemma. Qed.
+Print Assumptions raise_has_room.
+
+(* NewState clamps as documented: the stored options are normal, normalising is idempotent and
+   leaves valid settings alone *)
+Theorem options_normalised : forall o,
+  normal (normalise o) /\
+  normalise (normalise o) = normalise o /\
+  (normal o -> 0 <= oRegistryMaxSize o -> normalise o = o) /\
+  oMinimize (normalise o) = oMinimize o /\
+  (1 <= oCallStackSize o -> oCallStackSize (normalise o) = oCallStackSize o) /\
+  (128 <= oRegistrySize o -> oRegistrySize (normalise o) = oRegistrySize o) /\
+  (128 <= oRegistrySize o <= oRegistryMaxSize o -> oRegistryMaxSize (normalise o) = oRegistryMaxSize o).
+Proof. exact options_normalised_lemma. Qed.
+Print Assumptions options_normalised.
+
+(* Any client of the call-frame stack and the registry (an interaction tree choosing its next
+   operation from the answers so far) that stays in the domain, below the smaller call-stack
+   capacity and below the smaller registry limit of two normal configurations, gets the same answers
+   from both — whichever stack implementation, pool behaviour, registry size, growth step — namely
+   those of the unbounded specification. *)
+Theorem config_independent : forall oA oB poolA poolB cl,
+  normal oA -> normal oB ->
+  (forall n, len (poolA n) = FramesPerSegment) -> (forall n, len (poolB n) = FramesPerSegment) ->
+  vbelow (Z.min (callLimit oA) (callLimit oB)) (Z.min (regLimit oA) (regLimit oB)) [] [] cl ->
+  run_config oA poolA cl = run_config oB poolB cl /\ run_config oA poolA cl = vspec [] [] cl.
+Proof. exact config_independent_lemma. Qed.
+Print Assumptions config_independent.
